@@ -101,6 +101,29 @@ def _run_readers(case):
                                 viols.append(V("C03:netcdf.EEMSRead:payload-leak", "result depends on the fill value stored beneath missing cells: %r vs %r" % (per_fill[key], cells), **tag))
                             per_fill.setdefault(key, cells)
                             outcomes["netcdf:ok"] = outcomes.get("netcdf:ok", 0) + 1
+            # named LARGE sizes (beyond 2^16 and beyond 2^20 cells, 1-D and 2-D): the file's missing cells, cell for cell
+            for grid in ((257, 256), (1100, 1000), (1, 70001)):
+                size = grid[0] * grid[1]
+                idx = numpy.arange(size)
+                big = ((idx * 7919) % 201 - 100) / 100.0
+                bmiss = (idx % 13 == 5) | (idx > size - 40)
+                c18._make_template(os.path.join(work, "big.nc"), grid, {"v": ("f8", big, bmiss, -9999.0)})
+                for dtype in (None, "Float", "Fuzzy"):
+                    res = c18._eems_read(work, "big.nc", "v", dtype, None)
+                    evals += 1
+                    judged += 1
+                    nontriv += 1
+                    tag = {"reader": "netcdf", "grid": list(grid), "DataType": dtype, "file_missing": "every 13th cell and the last 39"}
+                    sample = tag
+                    if res[0] != "ok":
+                        viols.append(V("C03:netcdf.EEMSRead:large-grid-raised", "reading a %r grid raised %r" % (grid, res[1]), **tag))
+                        continue
+                    got = numpy.ma.getmaskarray(res[1]).ravel()
+                    if got.shape != bmiss.shape or (got != bmiss).any():
+                        lost = int((bmiss & ~got).sum()) if got.shape == bmiss.shape else -1
+                        viols.append(V("C03:netcdf.EEMSRead:%s:large-grid" % ("missing-lost" if lost else "missing-extra"),
+                                       "%r grid: %d of %d cells missing in the file are present in the result" % (grid, lost, int(bmiss.sum())), **tag))
+                    outcomes["netcdf:large:ok"] = outcomes.get("netcdf:large:ok", 0) + 1
         else:
             col = [1.5, -9999.0, 0.25, 5.0]
             for m in range(16):
